@@ -479,3 +479,129 @@ Section MaxSplitPrefix.
     split; [cbn; lia|]. left. split; reflexivity.
   Qed.
 End MaxSplitPrefix.
+
+(** * Positions: every returned item is an original item or a correctly
+    positioned slice of an original chars node *)
+Definition matcher_ok (m : matcher) : Prop :=
+  forall s pos i j, m s pos = Some (i, j) -> j <= length s.
+
+Section Pieces.
+  Variable m : matcher.
+  Variable ms : option nat.
+  Variable keep skipnone : bool.
+  Variable lm : nmode.
+  Variable list_end : option nat.
+  Variable P : option node -> Prop.
+  Hypothesis m_ok : matcher_ok m.
+
+  Definition parts_ok (parts : list node) : Prop :=
+    Forall (fun part => Forall P (node_items part)) parts.
+
+  Lemma parts_ok_snoc parts nodes pe : parts_ok parts -> Forall P nodes -> parts_ok (parts ++ [flush nodes pe]).
+  Proof. intros A B. apply Forall_app. split; [exact A|]. constructor; [exact B | constructor]. Qed.
+
+  Lemma chars_loop_pieces orig p chars :
+    P (Some orig) ->
+    (forall a b, a < b -> b <= length chars -> P (mk_piece lm p chars a b)) ->
+    forall fuel prev parts pend parts' pend',
+    chars_loop m ms keep lm fuel orig p chars prev parts pend = Ok (parts', pend') ->
+    parts_ok parts -> Forall P pend -> parts_ok parts' /\ Forall P pend'.
+  Proof.
+    intros PO PP. induction fuel as [|f IH]; intros prev parts pend parts' pend' H A B; [discriminate|].
+    cbn [chars_loop] in H.
+    destruct (next_split m ms (length parts) chars prev) as [[i j]|] eqn:NS.
+    - apply next_split_some in NS. pose proof (m_ok _ _ _ _ NS) as JL.
+      destruct (Nat.leb prev i && Nat.ltb i j) eqn:G; cbn [negb] in H; [|discriminate].
+      apply andb_true_iff in G. destruct G as [G1 G2]. apply Nat.leb_le in G1. apply Nat.ltb_lt in G2.
+      assert (PC : slice chars prev i <> [] -> P (mk_piece lm p chars prev i)).
+      { intros NE. apply slice_nonempty_lt in NE. apply PP; lia. }
+      destruct (Nat.eqb prev 0).
+      + set (pend1 := if nonempty (slice chars prev i) then pend ++ [mk_piece lm p chars prev i] else pend) in H.
+        assert (B1 : Forall P pend1).
+        { subst pend1. destruct (slice chars prev i) eqn:S0; cbn [nonempty]; [exact B|].
+          apply Forall_app. split; [exact B|]. constructor; [|constructor]. apply PC. congruence. }
+        apply IH in H; [exact H | | constructor].
+        destruct (_ || keep); [apply parts_ok_snoc; assumption | exact A].
+      + set (the := if nonempty (slice chars prev i) then [mk_piece lm p chars prev i] else []) in H.
+        assert (B1 : Forall P the).
+        { subst the. destruct (slice chars prev i) eqn:S0; cbn [nonempty]; [constructor|].
+          constructor; [|constructor]. apply PC. congruence. }
+        apply IH in H; [exact H | | exact B].
+        destruct (_ || keep); [apply parts_ok_snoc; assumption | exact A].
+    - destruct (Nat.eqb prev 0).
+      + inversion H; subst. split; [exact A|]. apply Forall_app. split; [exact B|]. constructor; [exact PO|constructor].
+      + inversion H; subst. split; [exact A|].
+        destruct (slice chars prev (length chars)) eqn:S0; cbn [nonempty]; [exact B|].
+        apply Forall_app. split; [exact B|]. constructor; [|constructor].
+        assert (NE : slice chars prev (length chars) <> []) by congruence.
+        apply slice_nonempty_lt in NE. apply PP; lia.
+  Qed.
+
+  Lemma split_loop_pieces : forall l parts pend res,
+    (forall o, In o l -> P o) ->
+    (forall p e md chars a b, In (Some (NChars p e md chars)) l -> a < b -> b <= length chars ->
+       P (mk_piece lm p chars a b)) ->
+    split_loop m ms keep skipnone lm list_end l parts pend = Ok res ->
+    parts_ok parts -> Forall P pend -> parts_ok res.
+  Proof.
+    induction l as [|o l IH]; intros parts pend res PI PP H A B.
+    - cbn [split_loop] in H. inversion H; subst. destruct (_ || keep); [apply parts_ok_snoc; assumption | exact A].
+    - assert (PI' : forall o', In o' l -> P o') by (intros; apply PI; right; assumption).
+      assert (PP' : forall p e md chars a b, In (Some (NChars p e md chars)) l -> a < b -> b <= length chars ->
+                P (mk_piece lm p chars a b)) by (intros; eapply PP; eauto; right; eassumption).
+      assert (PO : P o) by (apply PI; left; reflexivity).
+      destruct o as [nd|].
+      + destruct nd; cbn [split_loop] in H;
+          try (eapply IH; [exact PI'|exact PP'|exact H|exact A|];
+               apply Forall_app; split; [exact B|]; constructor; [exact PO|constructor]; fail);
+          [|discriminate].
+        destruct (chars_loop m ms keep lm (S (length chars)) (NChars p e m0 chars) p chars 0 parts pend)
+          as [[parts1 pend1]|] eqn:CL; [|discriminate].
+        eapply chars_loop_pieces in CL; [|exact PO| |exact A|exact B].
+        * destruct CL as [A1 B1]. eapply IH; [exact PI'|exact PP'|exact H|exact A1|exact B1].
+        * intros a b Hab Hb. eapply PP; [left; reflexivity|exact Hab|exact Hb].
+      + cbn [split_loop] in H. eapply IH; [exact PI'|exact PP'|exact H|exact A|].
+        destruct skipnone; [exact B|]. apply Forall_app. split; [exact B|]. constructor; [exact PO|constructor].
+  Qed.
+End Pieces.
+
+Definition piece_of (lm : nmode) (l : items) (o : option node) : Prop :=
+  In o l \/
+  exists p e md chars a b, In (Some (NChars p e md chars)) l /\ a < b /\ b <= length chars /\
+    o = Some (NChars (p + a) (p + b) lm (slice chars a b)).
+
+(** C18_positions *)
+Theorem split_pieces m ms keep skipnone lm list_end l parts :
+  matcher_ok m ->
+  split_at_chars m ms keep skipnone lm list_end l = Ok parts ->
+  Forall (fun part => Forall (piece_of lm l) (node_items part)) parts.
+Proof.
+  intros MO H. eapply (split_loop_pieces m ms keep skipnone lm list_end (piece_of lm l) MO l [] []);
+    [| |exact H|constructor|constructor].
+  - intros o I. left. exact I.
+  - intros p e md chars a b I Hab Hb. right. exists p, e, md, chars, a, b. repeat split; assumption.
+Qed.
+
+(** a chars node agrees with the source text [src] *)
+Definition chars_agrees (src : str) (o : option node) : Prop :=
+  match o with
+  | Some (NChars p e _ chars) => e = p + length chars /\ slice src p e = chars
+  | _ => True
+  end.
+
+Theorem split_positions src m ms keep skipnone lm list_end l parts :
+  matcher_ok m ->
+  (forall o, In o l -> chars_agrees src o) ->
+  split_at_chars m ms keep skipnone lm list_end l = Ok parts ->
+  Forall (fun part => Forall (chars_agrees src) (node_items part)) parts.
+Proof.
+  intros MO W H. pose proof (split_pieces _ _ _ _ _ _ _ _ MO H) as F.
+  eapply Forall_impl; [|exact F]. intros part FP. eapply Forall_impl; [|exact FP].
+  intros o [I|(p & e & md & chars & a & b & I & Hab & Hb & E)]; [apply W; exact I|].
+  subst o. apply W in I. cbn [chars_agrees] in I |- *. destruct I as [I1 I2].
+  split; [rewrite slice_length by exact Hb; lia|].
+  rewrite <- I2. rewrite slice_slice by lia. reflexivity.
+Qed.
+
+Lemma m_lit_ok sep : sep <> [] -> matcher_ok (m_lit sep).
+Proof. intros NE s pos i j M. eapply m_lit_nonempty in M; [lia | exact NE]. Qed.
